@@ -62,7 +62,7 @@ type ocKey struct {
 }
 
 type local struct {
-	execs, steps, correct, cyclic, over, runStepDiff, deepNotStatic, decoderDiff int64
+	execs, steps, correct, cyclic, over, runStepDiff, deepNotStatic, decoderDiff, notes int64
 	maxWalk, maxInvoc, maxTry                                                    int
 	outcomes                                                                     map[ocKey]int64
 	sigs                                                                         map[string]struct{}
@@ -81,6 +81,7 @@ func newStats(r *vk.Run) *stats {
 
 func (l *local) note(res *result) {
 	l.execs++
+	l.notes += int64(res.Notes)
 	l.steps += int64(res.Steps)
 	if res.Cyclic {
 		l.cyclic++
@@ -119,6 +120,7 @@ func (s *stats) merge(w *walker) {
 	t.runStepDiff += l.runStepDiff
 	t.deepNotStatic += l.deepNotStatic
 	t.decoderDiff += l.decoderDiff
+	t.notes += l.notes
 	t.maxWalk = max(t.maxWalk, l.maxWalk)
 	t.maxInvoc = max(t.maxInvoc, l.maxInvoc)
 	t.maxTry = max(t.maxTry, l.maxTry)
@@ -297,6 +299,7 @@ func (s *stats) fullCheck(part, name string, macros []string, script []byte, bas
 		c := cfg{Gas: lim, Base: base, MaxSteps: budget, UseRun: true}
 		rr := exec(script, c, opts)
 		l.execs++
+		l.notes += int64(rr.Notes)
 		s.report(part, name, macros, script, c, correct, &rr)
 		l.outcome(part, c, need, rr.State)
 		if stepped && (rr.State != rs.State || rr.Gas != rs.Gas) {
@@ -445,6 +448,7 @@ func TestCheck(t *testing.T) {
 		"runs_vm_counter_above_walk":    int(s.tot.over),
 		"run_vs_step_differences":       int(s.tot.runStepDiff),
 		"own_decoder_vs_static_check":   int(s.tot.decoderDiff),
+		"api_consistency_notes":         int(s.tot.notes),
 		"max_reachable_items_seen":      s.tot.maxWalk,
 		"max_invocation_depth_seen":     s.tot.maxInvoc,
 		"max_try_depth_seen":            s.tot.maxTry,
